@@ -6,6 +6,7 @@ import (
 	"go/parser"
 	"go/printer"
 	"go/token"
+	"go/types"
 	"os"
 	"path/filepath"
 	"regexp"
@@ -173,6 +174,21 @@ func (p *Parser) Parse() ([]*model.MethodsInfo, error) {
 		}
 		list = append(list, info)
 		allMethods = append(allMethods, methods...)
+	}
+
+	// A generated function must not collide with a declaration that stays in the package.
+	// The converter interfaces themselves are replaced by the generated code.
+	replaced := make(map[types.Object]bool, len(entries))
+	for _, entry := range entries {
+		replaced[entry.intf] = true
+	}
+	for _, method := range allMethods {
+		if method.Opts.Receiver != "" {
+			continue
+		}
+		if obj := p.pkg.Types.Scope().Lookup(method.Name()); obj != nil && !replaced[obj] {
+			return nil, logger.Errorf("%v: %v is already declared in the package", p.fset.Position(method.Method.Pos()), method.Name())
+		}
 	}
 
 	// Resolve converters.
